@@ -871,6 +871,15 @@ pub fn gen(prop: &str, rng: &mut Rng, quick: bool, st: &mut Stats) -> Option<Vec
                 c.push(format!("chk_sa_hist {}", ops.join(";")));
             }
             c.push(format!("chk_sa_hist {};s:X:Y;l;n", spill_ops(rng, 4300, Compression::None)));
+            // archives of another writer in which tiles share a start offset with different lengths (always present,
+            // whatever the random sample holds): opened, looked up and saved by both families
+            for icomp in [1u8, 2, 4] {
+                let t = |id: u64, run: u32, off: u64, len: u32| spec::SEntry { id, off, len, run };
+                let data: Vec<u8> = rng.bytes(64);
+                let b = raw_archive(icomp, &[t(1, 1, 0, 10), t(2, 1, 0, 4), t(3, 2, 4, 6), t(9, 1, 0, 7), t(12, 1, 20, 9), t(13, 1, 20, 30)], &[], &data);
+                c.push(format!("chk_sa_hist o:X:u_u:{};l;n;g:1;g:2;g:3;g:9;g:c;g:d;s:X:Y;l;n;g:2;g:9;g:d;w:X:0:-", hex_bytes(&b)));
+                st.bump("foreign_tiles_sharing_a_start_offset");
+            }
             // asynchronous lookups that are given up half-way (the synchronous API has no such thing: afterwards the two
             // families must still agree)
             for (k, b) in sample_archives(rng, true, st).iter().enumerate().take(6) {
